@@ -195,6 +195,30 @@ def per_track(chk: core.Check, n_lists: int):
             if verdict.tolist() != want.tolist():
                 chk.failing_input("HelixAwkwardArray.isclose per-track verdicts", dict(desc(), differing_track=j), verdict.tolist(), want.tolist(), "the closeness test gives for each track what the single-track helix gives for that track alone")
                 return
+        # closeness test in all three kinds, with and without error matrices (a record without one has no `error` field), the other helix
+        # given about another pivot and one track perturbed: array verdict = record verdict = object verdict, per track
+        if it % 3 == 0:
+            import warnings
+            k = int(rng.integers(0, n))
+            h2 = {kk: (v.copy() if isinstance(v, np.ndarray) else v) for kk, v in h.items()}
+            h2["dr"][k] += 0.125
+            flat_a = hc.impl_arr(h, error=E if with_err else None)
+            flat_b = hc.impl_arr(h2, error=E if with_err else None)
+            with warnings.catch_warnings():
+                warnings.simplefilter("ignore")
+                try:
+                    va = [bool(x) for x in ak.to_numpy(flat_a.isclose(flat_b))]
+                    vr = [bool(flat_a[i].isclose(flat_b[i])) for i in range(n)]
+                    vo = [bool(objs[i].isclose(pybes3.helix_obj(h2["dr"][i], h2["phi0"][i], h2["kappa"][i], h2["dz"][i], h2["tanl"][i], pivot=tuple(h2["piv"][i]), error=E[i] if with_err else None))) for i in range(n)]
+                except Exception as ex:
+                    chk.failing_input("isclose in object / record / array form", dict(desc(), with_error_matrix=bool(with_err), perturbed_track=k), f"{type(ex).__name__}: {ex}", "a verdict per track",
+                                      "the closeness test gives for each track what the single-track helix object gives (the three container kinds agree)")
+                    return
+            chk.count(3 * n, key=f"isclose-{with_err}")
+            if not (va == vr == vo) or vo[k] is True:
+                chk.failing_input("isclose in object / record / array form", dict(desc(), with_error_matrix=bool(with_err), perturbed_track=k), {"array": va, "record": vr, "object": vo}, "equal verdicts, False for the perturbed track",
+                                  "the closeness test gives for each track what the single-track helix object gives (the three container kinds agree)")
+                return
         # a single record and sliced / indexed views
         if depth == 2 and n >= 2 and form != "array":
             view = arr[::-1]
